@@ -1,4 +1,210 @@
-(* placeholder until C18/Proofs*.v land: nothing is claimed proved yet *)
-From V Require Import C18.Glue.
-Theorem c18_placeholder : True. Proof. exact I. Qed.
-Print Assumptions c18_placeholder.
+(* C18 - Resources merge with documented precedence; environment settings parse totally.
+   Every theorem is about the executable model coq/C18/Model.v (tied to the C++ by ./check C18);
+   statements only, proofs are in coq/C18/Proofs*.v. *)
+From V Require Import C18.Glue C18.ProofsBase C18.ProofsEnv C18.ProofsRes C18.ProofsClauses C18.ProofsFloat.
+Local Open Scope Z_scope.
+
+(* ---- "a.Merge(b) contains the union of both with b's value winning on every shared key and b's schema URL
+        unless it is empty" : for every pair of resources and every key *)
+Theorem merge_spec : forall a b : resource,
+  (forall k, lookup k (r_attrs (merge a b)) =
+             match lookup k (r_attrs b) with Some v => Some v | None => lookup k (r_attrs a) end) /\
+  r_schema (merge a b) = (match r_schema b with [] => r_schema a | _ => r_schema b end) /\
+  (NoDup (keys (r_attrs b)) -> NoDup (keys (r_attrs (merge a b)))).
+Proof. exact merge_spec_proof. Qed.
+Print Assumptions merge_spec.
+
+Theorem merge_is_union : forall a b k,
+  In k (keys (r_attrs (merge a b))) <-> In k (keys (r_attrs a)) \/ In k (keys (r_attrs b)).
+Proof. exact merge_keys. Qed.
+Print Assumptions merge_is_union.
+
+(* ---- "... and leaves a and b unchanged": in every script of constructions, merges and Create calls, entry i of
+        the store is the same whatever operations follow *)
+Theorem merge_operands_unchanged : forall ra sn (ops more : list rop) (i : nat),
+  (i < length ops)%nat ->
+  nth_error (run_rops ra sn (ops ++ more)) i = nth_error (run_rops ra sn ops) i.
+Proof. exact merge_operands_unchanged_proof. Qed.
+Print Assumptions merge_operands_unchanged.
+
+(* ---- "key=value lists": OTEL_RESOURCE_ATTRIBUTES / OTEL_SERVICE_NAME, for every pair of settings and every key *)
+Theorem detector_spec : forall (ra sn : envv) (k : bytes),
+  lookup k (r_attrs (detect ra sn)) = env_says ra sn k /\ r_schema (detect ra sn) = [] /\
+  NoDup (keys (r_attrs (detect ra sn))).
+Proof. exact detector_spec_proof. Qed.
+Print Assumptions detector_spec.
+
+(* the pieces env_says reads are exactly the text between the commas *)
+Theorem pieces_spec : forall c s,
+  join_with c (pieces c s) = s /\ Forall (fun p => existsb (Byte.eqb c) p = false) (pieces c s).
+Proof. exact pieces_spec_proof. Qed.
+Print Assumptions pieces_spec.
+
+(* ---- "Resource::Create(attrs) yields the SDK defaults, overridden by OTEL_RESOURCE_ATTRIBUTES / OTEL_SERVICE_NAME,
+        overridden by the caller's attributes" *)
+Theorem create_precedence : forall ra sn attrs schema r,
+  create ra sn attrs schema = Some r ->
+  r_schema r = schema /\
+  forall k,
+    (forall v, lookup k attrs = Some v -> lookup k (r_attrs r) = Some v) /\
+    (forall v, lookup k attrs = None -> env_says ra sn k = Some v -> lookup k (r_attrs r) = Some v) /\
+    (forall v, lookup k attrs = None -> env_says ra sn k = None -> lookup k doc_defaults = Some v ->
+               lookup k (r_attrs r) = Some v) /\
+    (lookup k attrs = None -> env_says ra sn k = None -> lookup k doc_defaults = None -> k <> key_service_name ->
+     lookup k (r_attrs r) = None).
+Proof. exact create_precedence_proof. Qed.
+Print Assumptions create_precedence.
+
+(* ---- "... and always contains a service.name".
+   Full statement:  forall ra sn attrs schema, exists r, create ra sn attrs schema = Some r /\
+                                               lookup key_service_name (r_attrs r) <> None.
+   REFUTED on the current code (open finding F25): Create throws when no service.name is configured and
+   process.executable.name is not a string. *)
+Theorem service_name_always_present_refuted : exists ra sn attrs schema, create ra sn attrs schema = None.
+Proof. exact service_name_always_present_refuted_proof. Qed.
+Print Assumptions service_name_always_present_refuted.
+
+(* strongest true form: whenever Create returns the resource has a service.name, and it returns whenever a
+   service.name is configured or the executable name is absent or a string *)
+Theorem service_name_always_present_partial : forall ra sn attrs schema,
+  (forall r, create ra sn attrs schema = Some r -> exists v, lookup key_service_name (r_attrs r) = Some v) /\
+  ((layered ra sn attrs key_service_name <> None \/
+    layered ra sn attrs key_exe_name = None \/ exists e, layered ra sn attrs key_exe_name = Some (VStr e)) ->
+   exists r, create ra sn attrs schema = Some r).
+Proof. exact service_name_always_present_partial_proof. Qed.
+Print Assumptions service_name_always_present_partial.
+
+(* Create completely characterised, including when it throws *)
+Theorem create_total_characterisation : forall (ra sn : envv) (attrs : amap) (schema : bytes),
+  match create ra sn attrs schema with
+  | None => layered ra sn attrs key_service_name = None /\
+            (exists z, layered ra sn attrs key_exe_name = Some (VInt z)) \/
+            layered ra sn attrs key_service_name = None /\
+            (exists b, layered ra sn attrs key_exe_name = Some (VBool b))
+  | Some r =>
+      r_schema r = schema /\
+      (forall k, lookup k (r_attrs r) =
+                 match layered ra sn attrs k with
+                 | Some v => Some v
+                 | None => if bytes_eqb k key_service_name then fallback_name (layered ra sn attrs key_exe_name) else None
+                 end) /\
+      (layered ra sn attrs key_service_name = None -> fallback_name (layered ra sn attrs key_exe_name) <> None)
+  end.
+Proof. exact create_characterised. Qed.
+Print Assumptions create_total_characterisation.
+
+(* ---- "booleans case-insensitively ... for any other string fall back to the documented default (false)" *)
+Theorem bool_spec : forall v : envv,
+  (raw_nonempty v = None -> get_bool v = (false, false)) /\
+  (forall s, raw_nonempty v = Some s ->
+     (word_ci s lit_true -> get_bool v = (true, true)) /\
+     (word_ci s lit_false -> get_bool v = (true, false)) /\
+     (~ word_ci s lit_true -> ~ word_ci s lit_false -> get_bool v = (true, false))).
+Proof. exact bool_spec_proof. Qed.
+Print Assumptions bool_spec.
+
+(* OTEL_SDK_DISABLED and the sdk Provider helpers *)
+Theorem sdk_disabled_spec : forall v : envv,
+  (sdk_disabled v = true <-> exists s, raw_nonempty v = Some s /\ word_ci s lit_true) /\
+  provider_installed v = negb (sdk_disabled v).
+Proof. exact sdk_disabled_proof. Qed.
+Print Assumptions sdk_disabled_spec.
+
+(* ---- "unsigned integers within 32 bits ... return the exact value for those, and for any other string fall back
+        to the documented default (0, unset)" : for every byte string *)
+Theorem uint_spec : forall (v : envv),
+  (raw_nonempty v = None -> get_uint v = (false, 0)) /\
+  (forall s, raw_nonempty v = Some s ->
+     (forall n, get_uint v = (true, n) <-> uint_text s n /\ n <= 2 ^ 32 - 1) /\
+     ((forall n, ~ (uint_text s n /\ n <= 2 ^ 32 - 1)) -> get_uint v = (false, 0))).
+Proof. exact uint_spec_proof. Qed.
+Print Assumptions uint_spec.
+
+(* ---- "durations as digits with an optional ns/us/ms/s/m/h unit": accepted iff the text has the documented shape,
+        is not zero and fits the 64-bit nanosecond counter; the value is the mathematical one; anything else
+        leaves the caller's variable alone and reports 'unset' *)
+Theorem duration_spec : forall (v : envv) (sentinel : Z),
+  (raw_nonempty v = None -> get_duration v sentinel = Some (false, 0)) /\
+  (forall s, raw_nonempty v = Some s ->
+     (forall ns, get_duration v sentinel = Some (true, ns) <-> duration_text s ns /\ 0 < ns <= 2 ^ 63 - 1) /\
+     ((forall ns, ~ (duration_text s ns /\ 0 < ns <= 2 ^ 63 - 1)) -> get_duration v sentinel = Some (false, sentinel))).
+Proof. exact duration_spec_proof. Qed.
+Print Assumptions duration_spec.
+
+(* "instead of ... undefined behaviour": no signed overflow in GetTimeoutFromString, for every text *)
+Theorem duration_no_ub : forall s, parse_duration s <> DUB.
+Proof. exact duration_no_ub_proof. Qed.
+Print Assumptions duration_no_ub.
+
+(* ---- "for any other string fall back to the documented default (false, 0, unset) instead of a partial value":
+        every reader either accepts or yields exactly its default *)
+Theorem readers_total_default_on_junk : forall v : envv,
+  (snd (get_bool v) = true -> exists s, raw_nonempty v = Some s /\ word_ci s lit_true) /\
+  (fst (get_uint v) = false -> snd (get_uint v) = 0) /\
+  (fst (get_float v) = false -> snd (get_float v) = 0) /\
+  (fst (get_string v) = false -> snd (get_string v) = []) /\
+  (forall sentinel, exists r n, get_duration v sentinel = Some (r, n) /\ (r = false -> n = 0 \/ n = sentinel)).
+Proof. exact readers_total_proof. Qed.
+Print Assumptions readers_total_default_on_junk.
+
+(* float reader, PARTIAL: acceptance implies the ISO C float syntax for the whole text (so junk, trailing text,
+   missing digits are rejected with the default).  Not proved: that the accepted value is the correctly rounded
+   one (the model's rounding is compared bit-for-bit with strtof on every run instead). *)
+Theorem float_accept_syntax_partial : forall s, s <> [] ->
+  fst (get_float (Some s)) = true -> spec_float_syntax s <> None.
+Proof. exact float_accept_syntax_proof. Qed.
+Print Assumptions float_accept_syntax_partial.
+
+(* ---- "every span, log record and metric batch references its provider's resource" *)
+Theorem provider_resource_referenced : forall (rs : list resource) (ops : list (signal * nat)),
+  Forall2 (fun op it => match nth_error rs (snd op) with
+                        | Some r => it = Some (mk_item_obs (Some (snd op)) r)
+                        | None => it = None
+                        end) ops (run_emits rs ops).
+Proof. exact provider_resource_referenced_proof. Qed.
+Print Assumptions provider_resource_referenced.
+
+(* ---- model_meets_spec, clause by clause: the SPEC checkers ./check runs on the implementation's observations
+        report nothing on the model's own results, for every input (a throwing Create is reported under the
+        signature of finding F25 and nothing else) *)
+Theorem model_meets_spec_bool : forall v, clause_bool v (fst (get_bool v)) (snd (get_bool v)) = [].
+Proof. exact clause_bool_ok. Qed.
+Print Assumptions model_meets_spec_bool.
+Theorem model_meets_spec_uint : forall v stale, clause_uint v stale (fst (get_uint v)) (snd (get_uint v)) = [].
+Proof. exact clause_uint_ok. Qed.
+Print Assumptions model_meets_spec_uint.
+Theorem model_meets_spec_duration : forall v sentinel,
+  exists r n, get_duration v sentinel = Some (r, n) /\ clause_duration v sentinel r n = [].
+Proof. exact clause_duration_ok. Qed.
+Print Assumptions model_meets_spec_duration.
+Theorem model_meets_spec_string : forall v, clause_string v (fst (get_string v)) (snd (get_string v)) = [].
+Proof. exact clause_string_ok. Qed.
+Print Assumptions model_meets_spec_string.
+Theorem model_meets_spec_disabled : forall v,
+  clause_disabled v (sdk_disabled v) (provider_installed v) (provider_installed v) (provider_installed v) = [].
+Proof. exact clause_disabled_ok. Qed.
+Print Assumptions model_meets_spec_disabled.
+Theorem model_meets_spec_detector : forall ra sn, clause_detect ra sn (obs_of (detect ra sn)) = [].
+Proof. exact clause_detect_ok. Qed.
+Print Assumptions model_meets_spec_detector.
+Theorem model_meets_spec_merge : forall a b, NoDup (keys (r_attrs a)) -> NoDup (keys (r_attrs b)) ->
+  clause_merge (obs_of a) (obs_of b) (obs_of (merge a b)) = [].
+Proof. exact clause_merge_ok. Qed.
+Print Assumptions model_meets_spec_merge.
+Theorem model_meets_spec_create : forall ra sn attrs schema,
+  clause_create ra sn attrs schema (obs_of_o (create ra sn (map_of_list attrs) schema)) =
+  match create ra sn (map_of_list attrs) schema with Some _ => [] | None => f25 end.
+Proof. exact clause_create_ok. Qed.
+Print Assumptions model_meets_spec_create.
+Theorem model_meets_spec_scripts : forall ra sn ops, rops_wf 0 ops ->
+  only_f25 (clause_rops ra sn ops (map obs_of_o (run_rops ra sn ops))).
+Proof. exact clause_rops_ok. Qed.
+Print Assumptions model_meets_spec_scripts.
+Theorem model_meets_spec_providers : forall rs ops,
+  Forall (fun op => (snd op < length rs)%nat) ops ->
+  clause_emits rs ops (map (fun it => match it with
+                                       | Some p => Some (match p_ref p with Some i => Z.of_nat i | None => -1 end, obs_of (p_res p))
+                                       | None => None
+                                       end) (run_emits (resources_of rs) ops)) = [].
+Proof. exact clause_emits_ok. Qed.
+Print Assumptions model_meets_spec_providers.
